@@ -85,6 +85,12 @@ def run(ctx):
                           "steps": [{"t": "send", "c": "c1", "k": "auth", "u": "u1", "p": "p1", "a": False}, {"t": "sleep", "n": hold},
                                     {"t": "recv"}, {"t": "send", "c": "c2", "k": "list", "u": "", "p": "", "a": False}, {"t": "recv"},
                                     {"t": "send", "c": "c3", "k": "auth", "u": "u2", "p": "p2", "a": False}, {"t": "recv"}, {"t": "free"}]})
+    # web clients that hang up while their login waits for its turn: nobody is there to take the answer, the dispatcher goes on
+    scenarios.append({"name": "web-clients-hang-up", "mode": "", "default": 2, "files": up, "passwords": af.PASSWORDS, "gated": True, "seed": 1,
+                      "forced": False, "filler": 0, "frontends": True, "http_admin": ["u2", "p2"], "novalidate": True,
+                      "steps": [{"t": "hangup", "u": "u1", "p": "p1", "n": 4}, {"t": "sleep", "n": 800},
+                                {"t": "send", "c": "c1", "k": "list", "u": "", "p": "", "a": False},
+                                {"t": "send", "c": "c2", "k": "auth", "u": "u2", "p": "p2", "a": False, "via": "sasl"}, {"t": "free"}]})
     # a hooks directory that is unusable (world-writable) while many changes are made: whatever the hooks caller does about it,
     # the notifications must keep being taken off their channel (capacity 32)
     hd2 = os.path.join(ctx.scratch, "c10-hooks-bad.d")
